@@ -361,6 +361,13 @@ func (s *Sim) Release(t *Task) {
 	t.wake <- struct{}{}
 }
 
+// Parked reports whether the task is waiting for the driver (at a yield, at its start, or for a simulated lock).
+func (t *Task) Parked() bool {
+	t.sim.mu.Lock()
+	defer t.sim.mu.Unlock()
+	return t.state == stParked
+}
+
 // Done reports whether the task has finished (returned, panicked or was torn down).
 func (t *Task) Done() bool {
 	t.sim.mu.Lock()
@@ -438,6 +445,28 @@ func Yield(site int) {
 	}
 	t.state = stParked
 	t.Site = site
+	s.mu.Unlock()
+	s.Yields.Add(1)
+	t.park()
+}
+
+// Pause is an explicit scheduling point for harness code (e.g. a simulated slow client inside a
+// ResponseWriter.Write): the calling task parks until the driver releases it. No-op outside tasks.
+func Pause() {
+	s := cur.Load()
+	if s == nil || s.stopping.Load() {
+		return
+	}
+	t := s.current()
+	if t == nil {
+		return
+	}
+	s.mu.Lock()
+	if s.stopping.Load() {
+		s.mu.Unlock()
+		return
+	}
+	t.state = stParked
 	s.mu.Unlock()
 	s.Yields.Add(1)
 	t.park()
